@@ -782,11 +782,10 @@ func (o *Obligation) skolemize() {
 		return
 	}
 	o.Goal = c.And(newGoal...)
-	for _, p := range append([]*smt.Term{}, o.PC...) {
-		if p.Op != smt.OForall {
-			continue
-		}
+	// instances of one universally quantified formula at the candidate tuples (nil if none fits)
+	instances := func(p *smt.Term) []*smt.Term {
 		bound := p.Args[1:]
+		var out []*smt.Term
 		for _, fresh := range sks {
 			if len(fresh) != len(bound) {
 				continue
@@ -801,8 +800,54 @@ func (o *Obligation) skolemize() {
 				m[b.ID] = fresh[i]
 			}
 			if ok {
-				o.PC = append(o.PC, c.Subst(p.Args[0], m))
+				out = append(out, c.Subst(p.Args[0], m))
 			}
+		}
+		return out
+	}
+	// weaken replaces every universally quantified subformula in a POSITIVE position (under and/or/the branches of a
+	// Boolean ite) by the conjunction of its instances: the result is implied by the original, so it may be assumed.
+	var weaken func(p *smt.Term) (*smt.Term, bool)
+	weaken = func(p *smt.Term) (*smt.Term, bool) {
+		if !c.HasQuantifier(p) {
+			return p, false
+		}
+		switch p.Op {
+		case smt.OForall:
+			ins := instances(p)
+			if len(ins) == 0 {
+				return c.True(), true
+			}
+			return c.And(ins...), true
+		case smt.OAnd, smt.OOr:
+			args := make([]*smt.Term, len(p.Args))
+			for i, a := range p.Args {
+				args[i], _ = weaken(a)
+			}
+			if p.Op == smt.OAnd {
+				return c.And(args...), true
+			}
+			return c.Or(args...), true
+		case smt.OIte:
+			if c.HasQuantifier(p.Args[0]) {
+				return c.True(), true
+			}
+			a, _ := weaken(p.Args[1])
+			b, _ := weaken(p.Args[2])
+			return c.Ite(p.Args[0], a, b), true
+		}
+		return c.True(), true // negative or unknown position: drop
+	}
+	for _, p := range append([]*smt.Term{}, o.PC...) {
+		if !c.HasQuantifier(p) {
+			continue
+		}
+		if p.Op == smt.OForall {
+			o.PC = append(o.PC, instances(p)...)
+			continue
+		}
+		if w, changed := weaken(p); changed && w.Op != smt.OTrue {
+			o.PC = append(o.PC, w)
 		}
 	}
 }
